@@ -42,9 +42,15 @@ def extend(ctx: Ctx, mod) -> None:
     from . import witness
     res = witness.run_for_property(ctx.prop, ctx.repo)
     ctx.extra["witnesses"] = res
-    fired = sum(1 for r in res if r["status"] == "fired")
-    appl = sum(1 for r in res if r["status"] != "n/a")
+    wit = [r for r in res if not r["name"].startswith("refactor/")]
+    ref = [r for r in res if r["name"].startswith("refactor/")]
+    fired = sum(1 for r in wit if r["status"] in ("fired", "fired-other"))
+    appl = sum(1 for r in wit if r["status"] != "n/a")
     ctx.extra["witnesses_fired"] = f"{fired}/{appl}"
-    for r in res:
-        if r["status"] == "missed":
-            ctx.note(f"witness not detected: {r['name']} (expected {r['expect']})")
+    ctx.extra["refactorings_silent"] = f"{sum(1 for r in ref if r['status'] == 'silent')}/{sum(1 for r in ref if r['status'] != 'n/a')}"
+    for r in wit:
+        if r["status"] in ("missed", "error"):
+            ctx.note(f"witness not detected: {r['name']} (expected {r['expect']}): {r.get('detail', '')[:100]}")
+    for r in ref:
+        if r["status"] == "ALARM":
+            ctx.note(f"false alarm on behaviour-preserving refactoring {r['name']}: {r.get('rules')} {r.get('detail', '')[:100]}")
